@@ -108,11 +108,11 @@ SecWrite(os, o, f, t) ==
      ELSE IF inner THEN Res({t} \cup NewerIds(os, o), TRUE, added)
      ELSE Res({}, FALSE, added)
 
-\* SectionOutput.clear(): only in the ANSI branch and only with recorded content; cursor-up + erase + re-emission
+\* SectionOutput.clear(): only in the ANSI branch, only with recorded content and only when the section may write
+\* (a quiet section keeps its content - nothing can be erased on its screen); cursor-up + erase + re-emission
 SecClear(os, o, dec) ==
-  IF ~dec \/ os[o].content = <<>> THEN Res({}, FALSE, os)
-  ELSE LET cleared == [os EXCEPT ![o].content = <<>>]
-       IN IF GateA(os[o].q, os[o].v, NoFlags) THEN Res(NewerIds(os, o), TRUE, cleared) ELSE Res({}, FALSE, cleared)
+  IF ~dec \/ os[o].content = <<>> \/ ~GateA(os[o].q, os[o].v, NoFlags) THEN Res({}, FALSE, os)
+  ELSE Res(NewerIds(os, o), TRUE, [os EXCEPT ![o].content = <<>>])
 
 WriteLike(os, o, dec, f, t) == IF os[o].sec /\ dec THEN SecWrite(os, o, f, t) ELSE Gated(os, o, f, t)
 
@@ -128,7 +128,9 @@ Method(os, o, dec, m, f, t) ==
 \* a call of entry (role, name) made on output o (role "io": routed by the entry)
 TargetOf(role, name, o) == IF role = "io" THEN IOEntry(name).on ELSE o
 MethodOf(role, name) == IF role = "io" THEN IOEntry(name).m ELSE name
-Addressed(role, os, o) == IF role = "io" THEN DOMAIN os ELSE {o}   \* P: outputs the caller may be talking to
+\* P: the output a call addresses - an output's own methods: itself; IO.write*: the standard output, IO.error*: the
+\* error output (their documented routing); any other I/O entry point: either
+Addressed(role, name, os, o) == IF role # "io" THEN {o} ELSE IF name \in IOMethods THEN {IOEntry(name).on} ELSE DOMAIN os
 Call(os, dec, role, name, o, f, t) == Method(os, TargetOf(role, name, o), dec, MethodOf(role, name), f, t)
 OnStream(os, tgt, x, empty) == [s \in Streams |-> IF s = os[tgt].st THEN x ELSE empty]
 
@@ -155,7 +157,7 @@ Write(name, o, f, sh) ==
       t == next
       tgt == TargetOf(role, name, o)
       res == Call(outs, obj.dec, role, name, o, f, t)
-      adr == Addressed(role, outs, o)
+      adr == Addressed(role, name, outs, o)
   IN /\ next <= MaxTexts
      /\ name \in MethodsOf(role)
      /\ (HasFlags(role, name) \/ f = NoFlags)
@@ -177,7 +179,8 @@ Spec == Init /\ [][Next]_vars
 \* ------------------------------------------------------------------ the property
 \* (Write leaves q and v unchanged, so the configuration a call met is still in `outs`.)
 ClosedSilent == last.op = "write" =>
-  \A x \in last.adr : ~Open(outs[x], last.f) => (~last.any[outs[x].st] /\ last.ids[outs[x].st] = {})
+  /\ \A x \in last.adr : ~Open(outs[x], last.f) => (~last.any[outs[x].st] /\ last.ids[outs[x].st] = {})
+  /\ (\A x \in last.adr : ~Open(outs[x], last.f)) => \A s \in Streams : ~last.any[s] /\ last.ids[s] = {}
 OpenShows == (last.op = "write" /\ last.hasText /\ \A x \in last.adr : Open(outs[x], last.f)) =>
   \E s \in Streams : last.t \in last.ids[s]
 NeverLeaks == seen \cap shut = {}
